@@ -209,6 +209,9 @@ HELPER_TUPLES = [
     ("tuple-helper-nested-if", "lo = 2\nhi = 9\nmid = 0\ndef centre():\n    return lo + hi\nif hi > lo:\n    lo, mid = 6, centre()\nelse:\n    hi, mid = 1, centre()\nmon.write(lo)\nmon.write(mid)\n"
                                "while True:\n    if mid > 20:\n        hi, mid = 0, centre()\n    else:\n        hi, mid = mid, centre()\n    mon.write(hi)\n    mon.write(mid)\n"),
     ("tuple-helper-nested-for", "acc = 0\nlast = 0\ndef peek():\n    return acc + 1\nfor i in range(3):\n    acc, last = i * 10, peek()\n    mon.write(acc)\n    mon.write(last)\n"),
+    ("tuple-helper-inside-helper", "lo = 2\nhi = 9\nmid = 0\ndef centre():\n    return lo + hi\ndef shrink(n):\n    global lo, mid\n    lo, mid = n, centre()\n    return mid\n"
+                                   "mon.write(shrink(5))\nmon.write(lo)\ndef local_pair(n):\n    u = 1\n    v = 2\n    u, v = n, centre()\n    return u + v\nmon.write(local_pair(3))\n"
+                                   "while True:\n    mon.write(shrink(mid))\n"),
     ("tuple-helper-param", "gain = 2\nout = 0\ndef amp(v):\n    return v * gain\nx = 5\ngain, out = 3, amp(x)\nmon.write(gain)\nmon.write(out)\n"),
 ]
 
